@@ -74,3 +74,33 @@ def alloca_loop_cases():
             c["stack_kb"] = 1024          # total allocated: 40 x 32 KB, 24 x 64 KB > 1 MB; live at any time: one allocation
             out.append(c)
     return out
+
+
+def clone_jmpi_cases():
+    """a block ending in an indirect jump that is also the target of a `jmp` from a block placed behind the function's first
+    `ret` (the shape block cloning looks for): whichever copy of the block runs, every label whose address is taken is a
+    possible successor and must see the values computed in that copy."""
+    out = []
+    SEL, V, ACC, LP, SEL2 = 2, 3, 4, 5, 6
+    LR = {"k": "dref", "b": 4}
+    for sel in (0, 1):
+        for sel2 in (0, 1):
+            for tail in ("jmpi", "jmpi_after_store"):
+                for v in (3, 1000):
+                    xblk = [ins("add", R(ACC), R(V), I(100))]
+                    if tail == "jmpi_after_store":
+                        xblk += [ins("mov", M("i64", 200, 1), R(ACC))]
+                    items = [ins("mov", R(SEL), M("i64", 0, 1)), ins("mov", R(V), M("i64", 8, 1)), ins("mov", R(SEL2), M("i64", 16, 1)),
+                             ins("mov", R(ACC), I(0)), ins("mov", R(LP), LR), ins("mov", R(LP), M("i64", 0, LP)),
+                             br("bt", "A", R(SEL2)), br("bt", "Y", R(SEL)),
+                             "X"] + xblk + [{"op": "jmpi", "s": [R(LP)]},
+                             "A", ins("mov", R(ACC), I(55)), {"op": "jmp", "l": "OUT"},
+                             "B", ins("add", R(ACC), R(ACC), I(1)),
+                             "OUT", ins("mov", M("i64", 192, 1), R(ACC)), {"op": "ret", "s": [R(ACC)]},
+                             "Y", ins("mov", R(V), I(7)), {"op": "jmp", "l": "X"}]
+                    insns, pcs = progs.assemble(items)
+                    w = lambda x: (x & ((1 << 64) - 1)).to_bytes(8, "little")
+                    c = progs.family_case(insns, 6, w(sel) + w(v) + w(sel2))
+                    c["prog"]["funcs"][0]["lrefs"] = [{"l": pcs["B"], "l2": 0, "d": 0}]
+                    out.append(c)
+    return out
